@@ -125,6 +125,15 @@ def extract_si4_sources():
     except (RuntimeError, OSError):
         render = None
     common.write_if_changed(os.path.join(d, "c20_render_fn.inc"), (render or "/* gsm48_rr_render_ma not found */") + "\n")
+    # the final loop of gsm48_rr_render_ma: the real gsm_refer_pcs (sysinfo.c) and arfcn2index (gsm322.c); freq_map bound from settings.h
+    band = [common.c_function_text(src, "gsm_refer_pcs"),
+            common.c_function_text(os.path.join(REPO, "src/host/layer23/src/mobile/gsm322.c"), "arfcn2index")]
+    common.write_if_changed(os.path.join(d, "c20_band_fn.inc"), "\n\n".join(band) + "\n")
+    with open(os.path.join(REPO, "src/host/layer23/include/osmocom/bb/common/settings.h")) as f:
+        m = re.search(r"uint8_t\s+freq_map\s*\[\s*([^\]]+)\]\s*;", f.read())
+    fmb = m.group(1).strip() if m and re.fullmatch(r"[\s0-9xXa-fA-FuUlL<>+\-*/()]+", m.group(1).strip()) else "0"
+    with open(os.path.join(d, "c20_si4_defs.inc"), "a") as f:
+        f.write("#define C20_FREQ_MAP_SIZE (%s)\n" % fmb)
     # the immediate-assignment handlers and what they call
     try:
         rrc = os.path.join(REPO, GSM48_RR_C)
@@ -178,15 +187,17 @@ def gen(ctx):
     import hashlib
     si4bin, with_render, si4_text, render_text = build_si4(ctx)
     out = subprocess.run([si4bin, "const"], stdout=subprocess.PIPE, text=True, timeout=30).stdout.split()
-    eio, ie_cd, ie_ma, hdr, cdsz, lvsz, cause, msgsz, abn, cdlsz = [int(x) for x in out]
+    eio, ie_cd, ie_ma, hdr, cdsz, lvsz, cause, msgsz, abn, cdlsz, apcs, aflag, notimpl, fmsz = [int(x) for x in out]
     txt = common.gen_header("errno.h EIO, gsm_04_08.h GSM48_IE_CBCH_CHAN_DESC / GSM48_IE_CBCH_MOB_AL / sizeof(struct gsm48_system_information_type_4) / "
                             "sizeof(struct gsm48_chan_desc) / GSM48_RR_CAUSE_NO_CELL_ALLOC_A, GSM48_RR_CAUSE_ABNORMAL_UNSPEC, sysinfo.h sizeof(struct gsm48_sysinfo.si4_msg), gsm48_rr.h sizeof(struct gsm48_rr_cd.cell_desc_lv), sizeof(struct gsm48_rr_cd.mob_alloc_lv) - all as compiled")
     txt += ("Definition c_EIO : Z := %d.\nDefinition c_IE_CBCH_CHAN_DESC : Z := %d.\nDefinition c_IE_CBCH_MOB_AL : Z := %d.\n"
             "Definition c_SI4_HDR_SIZE : Z := %d.\nDefinition c_CHAN_DESC_SIZE : Z := %d.\nDefinition c_MOB_ALLOC_LV_SIZE : Z := %d.\n"
             "Definition c_CAUSE_NO_CELL_ALLOC_A : Z := %d.\nDefinition c_SI4_MSG_SIZE : Z := %d.\n"
-            "Definition c_CAUSE_ABNORMAL_UNSPEC : Z := %d.\nDefinition c_CELL_DESC_LV_SIZE : Z := %d.\n" % (eio, ie_cd, ie_ma, hdr, cdsz, lvsz, cause, msgsz, abn, cdlsz))
+            "Definition c_CAUSE_ABNORMAL_UNSPEC : Z := %d.\nDefinition c_CELL_DESC_LV_SIZE : Z := %d.\n"
+            "Definition c_ARFCN_PCS : Z := %d.\nDefinition c_ARFCN_FLAG_MASK : Z := %d.\nDefinition c_CAUSE_FREQ_NOT_IMPL : Z := %d.\nDefinition c_FREQ_MAP_SIZE : Z := %d.\n"
+            % (eio, ie_cd, ie_ma, hdr, cdsz, lvsz, cause, msgsz, abn, cdlsz, apcs, aflag, notimpl, fmsz))
     ctx.gen("MobAllocSi4Const", txt)
-    _SI4.update(bin=si4bin, render=with_render, hdr=hdr, lv=lvsz, msgsz=msgsz, cdl=cdlsz, abn=abn,
+    _SI4.update(bin=si4bin, render=with_render, hdr=hdr, lv=lvsz, msgsz=msgsz, cdl=cdlsz, abn=abn, notimpl=notimpl, fmsz=fmsz,
                 si4_sha=hashlib.sha256(si4_text.encode()).hexdigest(),
                 render_sha=hashlib.sha256(render_text.encode()).hexdigest() if render_text else None)
     ctx.extra["gen_constants_callers"] = dict(EIO=eio, IE_CBCH_CHAN_DESC=ie_cd, IE_CBCH_MOB_AL=ie_ma, si4_header=hdr, chan_desc=cdsz,
@@ -717,6 +728,87 @@ def rendercd_spec_py(c):
     return cls + ("-empty" if not sel else ""), [101 if not sel else 0] + exp[1:2 + 64] + diffs
 
 
+# ------------------------------------------------------------------ the band conversion loop of gsm48_rr_render_ma
+
+def line_of_band(c):
+    return " ".join(map(str, [c["pcs"], c["hl0"], c["hfill"], c["bg"], len(c["fm"])] + c["fm"])) + " " + line_of_rendercd(c).split(" ", 3)[3]
+
+
+def band_of_line(line, kind):
+    a = [int(x) for x in line.split()]
+    nfm = a[4]
+    c = rendercd_of_line(" ".join(map(str, a[1:4] + a[5 + nfm:])), kind)
+    c.update(path="renderband", pcs=a[0], fm=a[5:5 + nfm])
+    return c
+
+
+def show_band(c):
+    d = show_rendercd(c)
+    clear = [i for i in range(8 * len(c["fm"])) if not (c["fm"][i // 8] >> (i % 8)) & 1]
+    d.update(path="renderband", serving_cell="refers to PCS 1900" if c["pcs"] else "does not refer to PCS",
+             unsupported_band_indexes=clear if len(clear) <= 40 else clear[:40] + ["...(%d)" % len(clear)], line=line_of_band(c))
+    return d
+
+
+def _band_index(pcs, a):
+    """45.005 band plan as the phone's settings hold it: index = ARFCN, PCS 1900 channels 512..810 behind the 1024 plain ones"""
+    return a - 512 + 1024 if pcs and 512 <= a <= 810 else a
+
+
+def gen_band_cases(rng, n):
+    edges = [0, 1, 124, 125, 127, 128, 251, 252, 259, 293, 306, 340, 438, 511, 512, 513, 700, 809, 810, 811, 885, 886, 954, 955, 974, 975, 1023]
+    cases = []
+    for k in range(n):
+        pcs = k % 2
+        ca = set(rng.choice([[512, 809, 810, 811], [810], [809, 810], [810, 811], [512], []]))
+        for _ in range(rng.range(0, 8)):
+            ca.add(rng.choice(edges) if rng.chance(2, 3) else rng.below(1024))
+        ca = sorted(ca)
+        t = {a: 1 | (rng.below(256) & 0xFC if rng.chance(1, 4) else 0) for a in ca}
+        l = max(1, (len(ca) + 7) // 8)
+        v = [255] * l if rng.chance(2, 3) else _rand_bitmap(rng, l, len(ca))
+        lv = ([l] + v + [0] * 9)[:9]
+        mode = rng.choice(["all", "all", "one-clear", "one-clear", "no-pcs", "no-dcs", "random", "only-selected"])
+        fm = [255] * 166
+        idxs = [_band_index(pcs, a) for a in ca]
+        if mode == "one-clear" and idxs:
+            i = rng.choice(idxs)
+            fm[i // 8] &= ~(1 << (i % 8)) & 255
+        elif mode == "no-pcs":
+            for i in range(1024, 1323):
+                fm[i // 8] &= ~(1 << (i % 8)) & 255
+        elif mode == "no-dcs":
+            for i in range(512, 886):
+                fm[i // 8] &= ~(1 << (i % 8)) & 255
+        elif mode == "random":
+            fm = [rng.below(256) for _ in range(166)]
+        elif mode == "only-selected":
+            fm = [0] * 166
+            for i in idxs:
+                fm[i // 8] |= 1 << (i % 8)
+        c = mk_rendercd(rng.choice([0, 1, 64]), rng.choice([0, 7, 65500]), 0, lv, [0] * 17, t, "band " + mode)
+        c.update(path="renderband", pcs=pcs, fm=fm)
+        cases.append(c)
+    return cases
+
+
+def band_spec_py(c):
+    cls, e = rendercd_spec_py(c)
+    if e[0] != 0:
+        return "branch-error", e
+    n, pcs = e[1], c["pcs"]
+    ma, rc = list(e[2:2 + 64]), 0
+    for i in range(n):
+        a = ma[i]
+        if pcs and 512 <= a <= 810:
+            ma[i] = a | 0x8000
+        bi = _band_index(pcs, a)
+        if not (c["fm"][bi // 8] >> (bi % 8)) & 1:
+            rc = _SI4.get("notimpl", 8)
+            break
+    return ("refused" if rc else "accepted") + ("-pcs" if pcs else ""), [rc, n] + ma + e[2 + 64:]
+
+
 # ------------------------------------------------------------------ immediate assignment: message -> mob_alloc_lv -> L1
 
 def mk_assign(limit, ours, h, hl0, hfill, bg, tl, table, kind):
@@ -1056,6 +1148,38 @@ def run_callers(ctx, replay_case):
             ctx.nontrivial(("rendercd", cls, c["lv"][0], c["cdlv"][0], c["cdlv"][1] == 0, exp[1] == 0))
     elif replay_case is None:
         ctx.count("rendercd:not-executed")
+    # ---- the final loop of gsm48_rr_render_ma: PCS flag and band support (real gsm_refer_pcs / arfcn2index)
+    if replay_case is not None:
+        bc = [band_of_line(replay_case["line"], replay_case.get("kind", "replay"))] if replay_case.get("path") == "renderband" else []
+    else:
+        bc = gen_band_cases(rng, 500 if quick else 5000) if _SI4.get("freqlist") else []
+    if bc:
+        bl = [line_of_band(c) for c in bc]
+        bimpl, breport = run_impl(binp, bl, args=("renderband",))
+        bidx_ = list(range(len(bc)))
+        ctx.correspond("render-ma-band-loop", "MobAlloc", bidx_, lambda k: "w_c20_renderband " + bl[k], lambda k: bimpl[k], show=lambda k: show_band(bc[k]))
+        for k, c in enumerate(bc):
+            o = bimpl[k]
+            cls, exp = band_spec_py(c)
+            ctx.count("band:" + cls)
+            if o and o[0] in CODES:
+                fail("gsm48_rr_render_ma (band conversion loop): " + CODES[o[0]], dict(show_band(c), sanitizer=breport.get(k, "")),
+                     key="c20-render-band-memory", expected=exp[:10], observed=o)
+                continue
+            if o != exp:
+                if [x & 1023 for x in o[2:2 + 64]] != [x & 1023 for x in exp[2:2 + 64]] or o[1] != exp[1]:
+                    key, what = "c20-render-band-numbers", "gsm48_rr_render_ma: the channel numbers handed to L1 are not the decoded list"
+                elif o[2:2 + 64] != exp[2:2 + 64]:
+                    key, what = "c20-render-band-pcs-flag", ("gsm48_rr_render_ma: ARFCN_PCS must mark exactly the channels 512..810 of a cell that refers to PCS 1900 "
+                                                             "(serving cell %s)" % ("PCS" if c["pcs"] else "not PCS"))
+                elif o[:1] != exp[:1]:
+                    key, what = "c20-render-band-support", "gsm48_rr_render_ma: refusal (FREQ_NOT_IMPL) against the support bits of the channels' bands"
+                else:
+                    key, what = "c20-render-band-table", "gsm48_rr_render_ma: frequency table after the call"
+                fail(what, show_band(c), key=key, expected=exp[:12], observed=o[:12])
+            ctx.nontrivial(("band", cls, c["pcs"], exp[0], tuple(a in c["table"] for a in (512, 809, 810, 811))))
+    elif replay_case is None:
+        ctx.count("band:not-executed")
     # ---- IMMEDIATE ASSIGNMENT / IMMEDIATE ASSIGNMENT EXTENDED: message -> cd_now.mob_alloc_lv -> list at the L1 boundary
     if replay_case is not None:
         ac = [assign_of_line(replay_case["line"], replay_case.get("kind", "replay"))] if replay_case.get("path") == "assign" else []
@@ -1325,6 +1449,8 @@ def run(ctx):
                          "successor member poisoned; gsm48_rr_render_ma with cell_desc_lv: absent (also with old value octets behind a zero length), length 16 bit map 0 "
                          "(random subsets of 1..124, with and without 121..124, first octet 0x00, spare bits), wrong lengths (1, 15, 17, 255, random), range / "
                          "variable-bit-map formats (the set flagged by the real gsm48_decode_freq_list handed to the model), serving allocation competing inside 1..124; "
+                         "band loop: serving cell PCS / not PCS x allocations with the boundary channels 512, 809, 810, 811 and every band's edge ARFCNs x freq_map all "
+                         "supported / one selected channel's bit cleared / no PCS / no DCS / random / only the selected ones; "
                          "IMMEDIATE ASSIGNMENT / IMMEDIATE ASSIGNMENT EXTENDED messages (our request reference none / 1 / 2, hopping and "
                          "non-hopping channel descriptions, Mobile Allocation length 0..limit with bits forced into the first and the last octet, lengths the guards "
                          "must refuse, IE cut short, no length octet, starting-time IE or noise behind) through the real handlers up to the L1 boundary; caller classes = (path, channel description, length octet, complete / cut in IE / "
